@@ -15,6 +15,24 @@ CHECKS = {
         "Trusted: the reference evaluator (vf/refmodel.py), fixed adversarial leaf contents, small NULL-free integers; bounds: depth 3-5, operand pool fixed.",
         "DESIGN.md 3 C01",
     ),
+    "C02": (
+        "explicit-state BFS over real SQL-engine factory-call programs; compiled SQL executed on SQLite in both scan orders vs reference evaluator",
+        "Bounded exhaustive translation validation: every program over the SQL alphabet (six unary operations, joins with/without predicate in both operand orders, chains, pooled operands) up to the depth bound is built with real calls, compiled with to_executable, run on SQLite in both physical scan orders and compared with the reference (list where order is determined, multiset otherwise).",
+        "Trusted: reference evaluator, SQLite 3.40 as the database, the SQLite adapter for parenthesised UNION operands; bounds: depth 2-5, fixed leaf tables, NULL-free small integers.",
+        "DESIGN.md 3 C02",
+    ),
+    "C12": (
+        "exhaustive enumeration of expression trees x rows; three-way agreement (iteration callable, SQLite, reference)",
+        "Every expression/predicate tree up to the stated depth over the portable operator set, all 486 ranges with start,stop in [-4,4] and step in +-{1,2,3}, all sequences of 0-3 members, evaluated on all 49 rows by both real engine conversions and the reference interpreter.",
+        "Trusted: reference interpreter (vf/alphabet.py ref_eval), SQLite integer semantics; bounds: depth <= 2, integers in [-4,4].",
+        "DESIGN.md 3 C12",
+    ),
+    "C13": (
+        "exhaustive enumeration of predicate trees x rows against as_trivial / flatten_logical_and / Selection / columns_required",
+        "Every predicate tree up to depth 3 over all node types and every scalar expression up to depth 2 is built through the public factories; constant folding, conjunction flattening, Selection normalisation and required-column sets are judged against evaluation on every row of the bounded domain.",
+        "Trusted: reference interpreter; required columns compared with syntactic free columns; bounds: depth <= 3, 12 rows.",
+        "DESIGN.md 3 C13",
+    ),
 }
 
 NOT_YET = "check not built yet in this revision (planned, see DESIGN.md section 3)"
